@@ -62,10 +62,9 @@ func (pp *PushPromise) Deserialize(fr *FrameHeader) error {
 }
 
 func (pp *PushPromise) Serialize(fr *FrameHeader) {
-	if pp.ended {
-		fr.SetFlags(
-			fr.Flags().Add(FlagEndHeaders))
-	}
+	// padding is not written, so the flag must not be there either
+	fr.SetFlags(
+		fr.Flags().with(FlagEndHeaders, pp.ended).with(FlagPadded, false))
 
 	// the promised stream id comes before the header block fragment
 	fr.payload = http2utils.AppendUint32Bytes(fr.payload[:0], pp.stream&(1<<31-1))
